@@ -2529,8 +2529,8 @@ loopbody 0:
             proof { lemma_rng_join(r0, 0, ls, len0); lemma_line(r0, len0); }
 after `current_line = self.pull_line()?;`#1:
             proof { ls = len0; }
-before `let multiline = !current_line.is_single_line;`:
-        proof { lemma_rng_empty(r0, self.blk().len() as int, self.blk().len() as int); }
+after `end = self.block.len();`#0:
+        proof { lemma_rng_empty(r0, end as int, end as int); }
 loop 1:
                 invariant_except_break
                     end == self.blk().len(),
@@ -2540,7 +2540,8 @@ loop 1:
                     self.blk() == r0.subrange(0, self.blk().len() as int), self.rem() == r0.skip(self.blk().len() as int),
                     !all_blank(r0, ls, end as int), all_blank(r0, end as int, self.blk().len() as int),
                     self.blk()[self.blk().len() - 1] == r0[self.blk().len() - 1],
-                    all_blank(r0, 0, ls), ls == 0 || r0[ls - 1].kind == TokenKind::Newline, !single_marker(r0[ls].kind),
+                    all_blank(r0, 0, ls), ls == 0 || r0[ls - 1].kind == TokenKind::Newline,
+                    !single_marker(r0[ls].kind),    // [C17] more lines are gathered only for a block that does not start with `>>` or `=`
                 decreases (if self.blk()[self.blk().len() - 1].kind == TokenKind::Newline { 1nat } else { 0nat }), self.fuel()
 loopbody 1:
                 let ghost len1 = self.blk().len() as int;
